@@ -198,11 +198,10 @@ func (t *tcpPacketConn) startReading(conn net.Conn) {
 		n, err := readStreamingPacket(conn, buf)
 		if err != nil {
 			t.params.Logger.Warnf("Failed to read streaming packet: %s", err)
-			last := t.removeConn(conn)
-			// Only propagate connection closure errors if no other open connection exists.
-			if last || (!errors.Is(err, io.EOF) && !errors.Is(err, net.ErrClosed)) {
-				t.handleRecv(streamingPacket{nil, conn.RemoteAddr(), err})
-			}
+			// The failure of one TCP connection is not a failure of the packet conn,
+			// which is shared by every connection of the ufrag (present and future):
+			// readers stop at the first ReadFrom error.
+			t.removeConn(conn)
 
 			return
 		}
